@@ -1397,10 +1397,14 @@ class DiskRefsContainer(RefsContainer):
                 # may only be packed, or otherwise unstorable
                 found = False
 
+            # Drop the packed entry first: if we are interrupted (or the
+            # packed-refs lock is busy) the loose file still holds the old
+            # value, instead of a stale packed value becoming visible again.
+            self._remove_packed_ref(name)
+
             if found:
                 os.remove(filename)
 
-            self._remove_packed_ref(name)
             self._log(
                 name,
                 old_ref,
